@@ -77,7 +77,14 @@ def failsEntry (e : OpRes × St) (real : String) : List String :=
      | .ok => if r == "ok" then [] else ["operation-failed"])
   | _ => ["malformed-observation"]
 
+/-- `C20 T <fact>*`: the configuration snapshot stored in the metadata of real test runs, compared by the harness with
+    the other views at the moment of each execute() (X:… = a violation) -/
+def handleT (facts : Toks) : String :=
+  let bad := (facts.filter (·.startsWith "X:")).map (fun e => (e.drop 2).toString)
+  reply true bad.isEmpty (if bad.isEmpty then "ok" else ",".intercalate bad)
+
 def handle (ts : Toks) : String :=
+  if ts.head? == some "T" then handleT (ts.drop 1) else
   let (opsT, realT) := splitAt "#" ts
   match listOf op opsT with
   | some (ops, []) =>
